@@ -18,6 +18,8 @@ pub struct BinCtx {
     pub bin: String,
     /// persistent (keep-alive) connections, one per listen address index
     pub conns: std::collections::HashMap<usize, TcpStream>,
+    /// working directory of the server process (None: the harness's own)
+    pub cwd: Option<std::path::PathBuf>,
 }
 
 fn free_port() -> u16 {
@@ -156,7 +158,7 @@ pub fn send_keepalive(s: &mut TcpStream, addr: &str, prep: &Prepared) -> Option<
 impl BinCtx {
     pub fn new(seed: u64) -> Self {
         let bin = std::env::var("TSS_SERVER_BIN").expect("TSS_SERVER_BIN");
-        BinCtx { h: HCtx::new(Backend::Sqlite, seed), child: None, addrs: vec![], args: vec![], envs: vec![], bin, conns: std::collections::HashMap::new() }
+        BinCtx { h: HCtx::new(Backend::Sqlite, seed), child: None, addrs: vec![], args: vec![], envs: vec![], bin, conns: std::collections::HashMap::new(), cwd: None }
     }
 
     /// boot listen=flag:N|env:N dir=flag|env allow=none|flag:a,b|env:a,b|flagempty versions=default|flag:K|env:K days=default|flag:K|env:K
@@ -170,8 +172,15 @@ impl BinCtx {
             let (src, val) = v.split_once(':').unwrap_or((v, ""));
             match k {
                 "listen" => {
+                    // a trailing h: the addresses differ in the host only (127.0.0.1, 127.0.0.2, ... on ONE port)
+                    let (val, same_port) = match val.strip_suffix('h') { Some(x) => (x, true), None => (val, false) };
                     let n: usize = val.parse().unwrap_or(1);
-                    let list: Vec<String> = (0..n).map(|_| format!("127.0.0.1:{}", free_port())).collect();
+                    let list: Vec<String> = if same_port {
+                        let p = free_port();
+                        (0..n).map(|i| format!("127.0.0.{}:{}", i + 1, p)).collect()
+                    } else {
+                        (0..n).map(|_| format!("127.0.0.1:{}", free_port())).collect()
+                    };
                     self.addrs = list.clone();
                     match src {
                         "flag" => { args.push("--listen".into()); args.push(list.join(",").into()); }
@@ -191,7 +200,24 @@ impl BinCtx {
                         self.h.l1.open(false);
                         self.h.rebuild();
                     }
-                    let dir = self.h.l1.data_dir().into_os_string();
+                    // a trailing s: a directory name with characters that mean something elsewhere (URI, query, SQL)
+                    let (src, special) = match src.strip_suffix('s') { Some(x) => (x, true), None => (src, false) };
+                    // a trailing r: the directory is given RELATIVE to the directory the server is started in
+                    let (src, rel) = match src.strip_suffix('r') { Some(x) => (x, true), None => (src, false) };
+                    if special || rel {
+                        let base = self.h.l1.data_dir();
+                        let name = if special { "sync#2 %2Fdata?x=1&y" } else { "rel-data" };
+                        let p = if rel { base.join(name).join("db") } else { base.join(name) };
+                        self.h.l1.keep_dir = Some(p);
+                        self.h.l1.open(false);
+                        self.h.rebuild();
+                        if rel { self.cwd = Some(base.clone()); }
+                    }
+                    let dir = if rel {
+                        self.h.l1.data_dir().strip_prefix(self.cwd.as_ref().unwrap()).unwrap().as_os_str().to_os_string()
+                    } else {
+                        self.h.l1.data_dir().into_os_string()
+                    };
                     match src {
                         "flag" => { args.push("--data-dir".into()); args.push(dir.clone()); }
                         "env" => envs.push(("DATA_DIR".into(), dir.clone())),
@@ -248,6 +274,9 @@ impl BinCtx {
         cmd.args(&self.args).env_clear().env("RUST_LOG", "error").env("PATH", "/usr/bin:/bin");
         for (k, v) in &self.envs {
             cmd.env(k, v);
+        }
+        if let Some(d) = &self.cwd {
+            cmd.current_dir(d);
         }
         cmd.stdin(Stdio::null()).stdout(Stdio::null()).stderr(Stdio::null());
         let child = cmd.spawn().expect("spawn server");
